@@ -114,7 +114,8 @@ class CursorDiffs(object):
         if c == x:
             return self.shift(D, c, k) if k != 'nonneg' else self.shift_nonneg(D, c)
         out = self.forget(D, c)
-        for y in self.keys + self.ghosts:
+        dyn = {k for pair in D for k in pair} - set(self.keys) - set(self.ghosts)
+        for y in self.keys + self.ghosts + sorted(dyn, key=repr):
             if y == c:
                 continue
             if k == 'nonneg':
@@ -130,11 +131,80 @@ class CursorDiffs(object):
                 out[(y, c)] = v - k
         return out
 
+    # ---- integer counters that cursors are advanced by -------------------------------------------------
+    def ikey(self, e):
+        e = strip_casts(e)
+        if e.get('k') == 'ref' and e.get('dk') == 'local' and self.u.ty(e.get('ty0', e['ty']))['c'] == 'int':
+            return 'iv:%d' % e['d']
+        return None
+
+    def forget_counter(self, D, ik):
+        """the counter changes in an unknown way: its bounds and the positions remembered relative to it go"""
+        tag = 'sh:%s:' % ik
+        return {(a, b): v for (a, b), v in D.items()
+                if a != ik and b != ik and not (isinstance(a, str) and a.startswith(tag)) and not (isinstance(b, str) and b.startswith(tag))}
+
+    def advance_by_counter(self, D, c, ik):
+        """c += v for a tracked integer local v: c' = g + v, where the ghost g keeps the position c had.  Bounds of v (relative to
+        the constant origin 'Z') become bounds on c' - g; two cursors advanced by the same unchanged v keep their distance."""
+        g = 'sh:%s:%s' % (ik, c)
+        D = self.copy(D, g, c, 0)
+        lb = self.get(D, ik, 'Z')
+        ubn = self.get(D, 'Z', ik)          # Z - v >= ubn, i.e. v <= -ubn
+        old = D
+        D = self.forget(D, c)
+        keys = {k for pair in old for k in pair}
+        for y in keys:
+            if y in (c, ik, 'Z'):
+                continue
+            v = self.get(old, g, y)
+            if v > NEG and lb > NEG:
+                D[(c, y)] = v + lb
+            v = self.get(old, y, g)
+            if v > NEG and ubn > NEG:
+                D[(y, c)] = v + ubn
+        # siblings advanced by the same value of the counter
+        tag = 'sh:%s:' % ik
+        for g2 in [k for k in keys if isinstance(k, str) and k.startswith(tag) and k != g]:
+            c2 = g2[len(tag):]
+            # c2 == g2 + v must still hold: c2 was not touched since (its distance to its ghost is what the counter allows)
+            if self.get(old, c2, g2) == lb and lb > NEG or (self.get(old, c2, g2) > NEG and self.get(old, g2, c2) > NEG):
+                v = self.get(old, g, g2)
+                if v > NEG:
+                    D[(c, c2)] = v
+                v = self.get(old, g2, g)
+                if v > NEG:
+                    D[(c2, c)] = v
+        return D
+
     # ---- transfer ---------------------------------------------------------------------------------
     def transfer(self, node, D, on_event=None):
         for ev in node_effects(node):
             if on_event is not None:
                 on_event(ev, D)
+            if ev.kind == 'incdec' and self.ikey(ev.lhs):
+                D = self.shift(D, self.ikey(ev.lhs), ev.delta)
+                # positions remembered relative to the old value are stale
+                tag = 'sh:%s:' % self.ikey(ev.lhs)
+                D = {(a, b): v for (a, b), v in D.items() if not (isinstance(a, str) and a.startswith(tag)) and not (isinstance(b, str) and b.startswith(tag))}
+                continue
+            if ev.kind in ('store', 'declinit'):
+                ik = self.ikey(ev.lhs) if ev.kind == 'store' else ('iv:%d' % ev.lhs['d'] if self.u.ty(ev.lhs['ty'])['c'] == 'int' else None)
+                if ik:
+                    op_ = ev.node['op'] if ev.kind == 'store' else '='
+                    rhs_ = (ev.node['r'] if ev.kind == 'store' else ev.rhs)
+                    cst = const_val(rhs_) if rhs_ is not None else None
+                    if op_ == '=' and cst is not None:
+                        D = self.forget_counter(D, ik)
+                        D[(ik, 'Z')] = cst
+                        D[('Z', ik)] = -cst
+                    elif op_ in ('+=', '-=') and cst is not None:
+                        tag = 'sh:%s:' % ik
+                        D = {(a, b): v for (a, b), v in D.items() if not (isinstance(a, str) and a.startswith(tag)) and not (isinstance(b, str) and b.startswith(tag))}
+                        D = self.shift(D, ik, cst if op_ == '+=' else -cst)
+                    elif rhs_ is not None:
+                        D = self.forget_counter(D, ik)
+                    continue
             if ev.kind == 'incdec':
                 c = self.key(ev.lhs)
                 if c:
@@ -175,6 +245,8 @@ class CursorDiffs(object):
                     r = strip_casts(rhs)
                     if k is not None:
                         D = self.shift(D, c, k if op == '+=' else -k)
+                    elif op == '+=' and self.ikey(r) is not None and (self.get(D, self.ikey(r), 'Z') > NEG or self.get(D, 'Z', self.ikey(r)) > NEG):
+                        D = self.advance_by_counter(D, c, self.ikey(r))
                     elif op == '+=' and r.get('k') == 'call' and callee_name(r) in SPAN_FUNCS:
                         D = self.shift_nonneg(D, c)
                     elif op == '+=' and r.get('k') == 'bin' and r['op'] == '+' and any(
@@ -349,6 +421,10 @@ class CursorDiffs(object):
             for (dst, src) in copies:
                 if src in W and dst not in W:
                     W.add(dst)
+                    changed = True
+                # what is written through a copy of a cursor is written through that cursor (char * const d = *output; d[i] = ..)
+                if dst in W and src not in W and src not in loaded:
+                    W.add(src)
                     changed = True
         Rd = set(loaded) - W
         for p in self.pp:
